@@ -1,6 +1,7 @@
 package rules
 
 import (
+	"os"
 	"go/types"
 	"sort"
 	"strings"
@@ -16,7 +17,9 @@ func init() { Registry["C12"] = C12 }
 // reviewed map iterations in replayed airgapped handlers: order of independent items, not part of what C12 compares
 var c12ReviewedMapRanges = map[string]string{
 	"handleStateDkgDealsAwaitConfirmations": "ranges over the deals map: the order of the per-recipient deal messages in ResultMsgs follows map order; the messages are independent and individually addressed",
-	"ProcessDeals":                          "ranges over d.deals: the order of the produced responses (and therefore of their signatures' nonces) follows map order; each response is independent and kyber stores responses by index",
+	// (ProcessDeals was listed here as "independent responses" until F-C12-1: each response is SIGNED with a nonce drawn
+	// from the round's deterministic stream, so the order decides which message a nonce signs — a replay in another map
+	// order signs a different message with the same nonce and discloses the long-term key)
 	"ProcessResponses":                      "ranges over stored responses by peer index: kyber's ProcessResponse is order-independent for certification",
 	"Equals":                                "test helper comparing two DKG objects",
 	"GetBLSKeyrings":                        "listing helper, not on the replay path",
@@ -292,6 +295,9 @@ func c12Nondeterminism(c *Ctx, root *ssa.Function) (bad, reviewed []string) {
 		}
 		ssax.Instrs(f, func(in ssa.Instruction) {
 			if rg, ok := in.(*ssa.Range); ok && strings.HasPrefix(rg.X.Type().Underlying().String(), "map[") {
+				if c12PureCollect(c, f, rg) {
+					return // only collects keys/values into a slice that is sorted before use: no order dependence
+				}
 				if why, ok := c12ReviewedMapRanges[f.Name()]; ok {
 					reviewed = append(reviewed, f.Name()+": "+why)
 				} else {
@@ -396,4 +402,39 @@ func c12OverwriteOnReplay(c *Ctx) {
 	r.Count("airgapped_db_query_then_put", nQ)
 	r.Check(nPut >= 2 && len(bad) == 0, "C12/R5", "airgapped:overwrite-on-replay", "every database write is performed again when the step is replayed", "",
 		sprintf("%d Put calls; %s — a replayed (or re-fed) step fails or keeps stale data where the first run succeeded, so the rebuilt machine differs from the one that never stopped", nPut, strings.Join(bad, "; ")))
+}
+
+
+// c12PureCollect: the body of the map range calls nothing but builtins, and what it collects is sorted before use
+// (c08RangeSensitive finds no order dependence).
+func c12PureCollect(c *Ctx, f *ssa.Function, rg *ssa.Range) bool {
+	var next *ssa.Next
+	if rg.Referrers() != nil {
+		for _, ref := range *rg.Referrers() {
+			if n, ok := ref.(*ssa.Next); ok {
+				next = n
+			}
+		}
+	}
+	if next == nil {
+		return false
+	}
+	header := next.Block()
+	for _, b := range f.Blocks {
+		if b != header && !(blockReach(header, b) && blockReach(b, header)) {
+			continue
+		}
+		for _, in := range b.Instrs {
+			if call, ok := in.(ssa.CallInstruction); ok {
+				if _, isB := call.Common().Value.(*ssa.Builtin); !isB {
+					return false
+				}
+			}
+		}
+	}
+	why := c08RangeSensitive(c, f, rg)
+	if os.Getenv("DCVERIF_DEBUG") != "" {
+		println("C12 pure-collect", f.Name(), strings.Join(why, "; "))
+	}
+	return len(why) == 0
 }
